@@ -704,6 +704,8 @@ struct EWorld {
     m: RefModel,
     table: Vec<ENode>,
     removed: Vec<Cand>,
+    /// nodes whose admission passed the gates but was refused by a full bucket: (id, ip, bucket)
+    refused: Vec<([u8; 32], IpAddr, usize)>,
     hist: Vec<String>,
 }
 
@@ -752,8 +754,14 @@ enum AddOutcome {
 
 /// one `add_node` through the engine, fully judged
 async fn engine_add(mon: &Monitor, w: &mut EWorld, rng: &mut Rng, ip: IpAddr, bucket: usize, display_form: bool, kind: EKind) -> AddOutcome {
+    engine_add_id(mon, w, rng, ip, bucket, display_form, kind, None).await
+}
+
+/// like `engine_add`, optionally for a given node id (a peer that announces itself again)
+#[allow(clippy::too_many_arguments)]
+async fn engine_add_id(mon: &Monitor, w: &mut EWorld, rng: &mut Rng, ip: IpAddr, bucket: usize, display_form: bool, kind: EKind, fixed: Option<[u8; 32]>) -> AddOutcome {
     let lane = "engine";
-    let id = id_in_bucket(&w.local, bucket, rng);
+    let id = fixed.unwrap_or_else(|| id_in_bucket(&w.local, bucket, rng));
     let port = rng.urange(1024, 65000) as u16;
     let address = if display_form {
         // the exact string the connect path hands over (DhtNetworkManager::handle_peer_connected)
@@ -820,6 +828,9 @@ async fn engine_add(mon: &Monitor, w: &mut EWorld, rng: &mut Rng, ip: IpAddr, bu
                 AddOutcome::Continue
             } else if msg.contains("Geographic diversity limits exceeded") || msg.contains("K-bucket at capacity") {
                 let why = if msg.contains("K-bucket") { "bucket-full" } else { "region-cap" };
+                if why == "bucket-full" && fixed.is_none() {
+                    w.refused.push((id, ip, bucket));
+                }
                 mon.count(&format!("engine.ops.add.failed-late.{why}"), 1);
                 w.hist.push(format!("add {} '{}' b{} -> Err after the diversity gate ({why})", hex8(&id), address, bucket));
                 // the diversity gate was passed: that is an admission decision of the gate
@@ -932,7 +943,7 @@ async fn lane_engine(mon: &Monitor, rng: &mut Rng, kind: EKind) {
         }
     };
     mon.count(&format!("engine.scenarios.{kind:?}"), 1);
-    let mut w = EWorld { local, eng, m: RefModel::new(IPDiversityConfig::default()), table: Vec::new(), removed: Vec::new(), hist: Vec::new() };
+    let mut w = EWorld { local, eng, m: RefModel::new(IPDiversityConfig::default()), table: Vec::new(), removed: Vec::new(), refused: Vec::new(), hist: Vec::new() };
     // first octets in four different regions of the engine's region table, so that the region
     // cap (50 per region) is not what refuses unless the scenario wants it
     let (uni, _) = universe(rng, false, &[23, 130, 170, 200, 230]);
@@ -1000,6 +1011,24 @@ async fn lane_engine(mon: &Monitor, rng: &mut Rng, kind: EKind) {
                     let ev = rng.chance(0.5);
                     go!(engine_remove(mon, &mut w, rng, ev).await);
                 }
+            }
+            // a peer the full bucket refused announces itself again once there is room: it must be
+            // admitted like a new node (gates applied, slots taken), so a second peer on its address
+            // is then refused
+            let refused: Vec<([u8; 32], IpAddr, usize)> = w.refused.iter().take(2).cloned().collect();
+            for (id, ip, bk) in refused {
+                while w.occupancy(bk) >= 8 {
+                    let ev = rng.chance(0.5);
+                    go!(engine_remove(mon, &mut w, rng, ev).await);
+                }
+                mon.count("engine.ops.readd-after-bucket-refusal", 1);
+                go!(engine_add_id(mon, &mut w, rng, ip, bk, false, kind, Some(id)).await);
+                if w.occupancy(bk) >= 8 {
+                    let ev = rng.chance(0.5);
+                    go!(engine_remove(mon, &mut w, rng, ev).await);
+                }
+                // same address, other node: the per-address level is at its cap now
+                go!(engine_add(mon, &mut w, rng, ip, bk, false, kind).await);
             }
         }
         EKind::RegionV4 | EKind::RegionV6 => {
